@@ -98,6 +98,22 @@ StaticProblems(gg) ==
   ELSE LET diff == {<<s, X>> \in (DOMAIN phi) \X Range(A[gg].so) : ~CellSame(gg, phi, s, X)} IN
        IF diff = {} THEN <<>> ELSE <<"cell", CHOOSE d \in diff : TRUE>>
 StaticReported == wit # <<>> \/ StaticProblems(g) = <<>> \/ PrintT(<<"STATIC", ToJson([g |-> Gs[g].id, why |-> StaticProblems(g)])>>)
+\* C12: the capacities the parser derived for itself against what the specification says the grammar needs
+\* (default limits: situation_count = sum over rules of (length + 1), times the number of terms, plus 2)
+NeedStates(gg) == Len(A[gg].states)
+NeedItems(gg) == LET m == {Cardinality(A[gg].states[q]) : q \in 1..Len(A[gg].states)} IN CHOOSE x \in m : \A y \in m : y <= x
+DefaultCap(gg) == LET R == A[gg].R
+                      RECURSIVE Sum(_) Sum(i) == IF i = 0 THEN 0 ELSE (IF i = Len(R) THEN 0 ELSE Len(R[i].r) + 1) + Sum(i - 1)
+                  IN Sum(Len(R)) * (Gs[gg].nt + 2) + 2
+CapProblems(gg) ==
+  IF Ds[gg].state_count > Ds[gg].state_cap THEN <<"more states than the cap", Ds[gg].state_count, Ds[gg].state_cap>>
+  ELSE IF \E s \in 1..Ds[gg].state_count : Len(Ds[gg].states[s]) > Ds[gg].item_cap THEN <<"more items in a state than the cap", Ds[gg].item_cap>>
+  ELSE IF Gs[gg].deflimits /\ (Ds[gg].state_cap # DefaultCap(gg) \/ Ds[gg].item_cap # DefaultCap(gg)) THEN <<"default cap differs from the documented formula", Ds[gg].state_cap, DefaultCap(gg)>>
+  ELSE IF Gs[gg].deflimits /\ NeedStates(gg) > DefaultCap(gg) THEN <<"grammar needs more states than the default cap", NeedStates(gg), DefaultCap(gg)>>
+  ELSE IF Gs[gg].deflimits /\ NeedItems(gg) > DefaultCap(gg) THEN <<"grammar needs more items per state than the default cap", NeedItems(gg), DefaultCap(gg)>>
+  ELSE <<>>
+CapsReported == wit # <<>> \/ (CapProblems(g) = <<>> /\ PrintT(<<"CAPSOK", ToJson([g |-> Gs[g].id, states |-> NeedStates(g), items |-> NeedItems(g), cap |-> Ds[g].state_cap, icap |-> Ds[g].item_cap])>>))
+                \/ PrintT(<<"CAPS", ToJson([g |-> Gs[g].id, why |-> CapProblems(g)])>>)
 \* conflicts as the specification sees them, for the orchestrator (domain of C01 / C05 / C11)
 ConflictsReported == wit # <<>> \/ PrintT(<<"CONFLICTS", ToJson([g |-> Gs[g].id, n |-> Cardinality(A[g].conflicts), rr |-> Cardinality(A[g].rr), states |-> Len(A[g].states)])>>)
 =============================================================================
